@@ -205,6 +205,81 @@ pub fn run_parallel<T: Sync>(
     total
 }
 
+//////////////////////////////////////// far-out arguments ////////////////////////////////////////
+
+/// A subject call that takes longer than this, twice in a row, on an argument that names nothing
+/// is reported as taking time that grows with the argument (the ladder below then stops, so the
+/// harness never reaches the magnitudes at which such a call would not return).
+pub const SLOW: std::time::Duration = std::time::Duration::from_millis(2);
+
+/// Arguments far past any valid range, ascending: every call must fail fast.
+pub fn far_ladder() -> Vec<usize> {
+    let mut v: Vec<usize> = vec![1 << 16, 1 << 20];
+    for k in 22..=26 {
+        v.push(1 << k);
+    }
+    v.extend([
+        1 << 28,
+        1 << 30,
+        u32::MAX as usize,
+        u32::MAX as usize + 1,
+        1 << 40,
+        1 << 48,
+        usize::MAX / 64,
+        (1 << 62) + 2,
+        (1 << 62) + 3,
+        usize::MAX / 2,
+        (1 << 63) + 2,
+        (1 << 63) + 3,
+        usize::MAX - 1,
+        usize::MAX,
+    ]);
+    v
+}
+
+/// Run `f` and say how long it took; a slow call is measured a second time and the smaller time
+/// counts (a descheduled thread is not a slow subject).
+pub fn timed<R>(mut f: impl FnMut() -> R) -> (R, std::time::Duration) {
+    let t0 = ticks();
+    let r = f();
+    let d1 = ticks_to_duration(ticks().wrapping_sub(t0));
+    if d1 <= SLOW {
+        return (r, d1);
+    }
+    let t1 = std::time::Instant::now();
+    let r2 = f();
+    let d2 = t1.elapsed();
+    let _ = r;
+    (r2, d1.min(d2))
+}
+
+/// A cheap monotonic tick counter (the time-stamp counter where there is one).
+#[cfg(target_arch = "x86_64")]
+fn ticks() -> u64 {
+    // SAFETY: rdtsc has no preconditions.
+    unsafe { core::arch::x86_64::_rdtsc() }
+}
+
+#[cfg(not(target_arch = "x86_64"))]
+fn ticks() -> u64 {
+    static START: std::sync::OnceLock<std::time::Instant> = std::sync::OnceLock::new();
+    START.get_or_init(std::time::Instant::now).elapsed().as_nanos() as u64
+}
+
+fn ticks_to_duration(t: u64) -> std::time::Duration {
+    static PER_US: std::sync::OnceLock<f64> = std::sync::OnceLock::new();
+    let per_us = *PER_US.get_or_init(|| {
+        let t0 = ticks();
+        let i0 = std::time::Instant::now();
+        while i0.elapsed() < std::time::Duration::from_millis(5) {
+            std::hint::spin_loop();
+        }
+        let dt = ticks().wrapping_sub(t0) as f64;
+        (dt / (i0.elapsed().as_secs_f64() * 1e6)).max(1e-3)
+    });
+    std::time::Duration::from_nanos((t as f64 / per_us * 1e3) as u64)
+}
+
 ///////////////////////////////////////////// documents ////////////////////////////////////////////
 
 /// The naive scan: positions at which `pat` occurs in `text`.  The empty pattern follows the
@@ -409,7 +484,7 @@ impl DocCtx<'_> {
             "empty-pattern"
         } else if pat.len() > self.text.len() {
             "pattern-longer-than-text"
-        } else if pat.iter().any(|s| !self.distinct.contains(s)) {
+        } else if pat.iter().any(|s| self.distinct.binary_search(s).is_err()) {
             "pattern-with-absent-symbol"
         } else if expected.is_empty() {
             "pattern-absent"
@@ -499,17 +574,31 @@ fn check_structure<D: Document>(
             }
         }
     }
-    // lookup at every offset
+    // lookup at every offset; the expectation is one sweep over the records
+    let mut record_of = vec![0usize; n];
+    let mut starts = vec![false; n + 2];
+    for (r, b) in bounds.iter().enumerate() {
+        let limit = if r + 1 < bounds.len() { bounds[r + 1] } else { n };
+        for slot in record_of.iter_mut().take(limit).skip(*b) {
+            *slot = r;
+        }
+        starts[*b] = true;
+    }
+    if n <= 16 {
+        for (off, r) in record_of.iter().enumerate() {
+            assert_eq!(*r, naive_lookup(bounds, off), "the two naive lookups disagree");
+        }
+    }
     for off in 0..n {
         st.calls += 1;
         let obs = vcore::catch(|| d.lookup(TextOffset(off)).map(|r| r.0));
         if let Ok(Ok(r)) = &obs {
             outcomes.insert(vcore::stable_hash(&("lookup", off, *r)));
         }
-        let exp = naive_lookup(bounds, off);
-        let class = if bounds.contains(&off) {
+        let exp = record_of[off];
+        let class = if starts[off] {
             "offset-is-record-start"
-        } else if bounds.contains(&(off + 1)) {
+        } else if starts[off + 1] {
             "offset-is-record-end"
         } else {
             "offset-inside-record"
@@ -562,7 +651,7 @@ fn check_structure<D: Document>(
             out.push(cx.finding(sig, format!("record {r}: {detail}"), None));
         }
     }
-    for r in [bounds.len(), bounds.len() + 1, usize::MAX] {
+    for r in [bounds.len(), bounds.len() + 1, bounds.len() + 16, 2 * n + 1] {
         st.calls += 2;
         let obs = vcore::catch(|| d.offset_of(RecordOffset(r)).map(|t| t.0));
         if let Some((sig, detail)) = judge(subj, "offset_of", "record-past-end", obs, None) {
@@ -571,6 +660,51 @@ fn check_structure<D: Document>(
         let obs = vcore::catch(|| d.retrieve(RecordOffset(r)));
         if let Some((sig, detail)) = judge(subj, "retrieve", "record-past-end", obs, None) {
             out.push(cx.finding(sig, format!("record {r}: {detail}"), None));
+        }
+    }
+    // records far past the end, ascending; a call whose time grows with the number stops the ladder
+    for op in ["offset_of", "retrieve"] {
+        if subj == "doc-reparsed" {
+            // the argument checks do not depend on where the bytes live: first parse only
+            break;
+        }
+        let mut seen: HashSet<String> = HashSet::new();
+        let mut prev: Option<(usize, std::time::Duration)> = None;
+        for r in far_ladder() {
+            st.calls += 1;
+            let (obs, dt) = timed(|| {
+                vcore::catch(|| {
+                    if op == "offset_of" {
+                        d.offset_of(RecordOffset(r)).map(|t| vec![t.0 as u32])
+                    } else {
+                        d.retrieve(RecordOffset(r))
+                    }
+                })
+            });
+            if let Some((sig, detail)) = judge(subj, op, "record-far-past-end", obs, None) {
+                if seen.insert(sig.clone()) {
+                    out.push(cx.finding(sig, format!("record {r}: {detail}"), None));
+                }
+            }
+            if dt > SLOW {
+                out.push(cx.finding(
+                    format!("{subj}:{op}:time-grows-with-argument:record-far-past-end"),
+                    format!(
+                        "{op}(record {r}) took {:.1} ms (measured twice, smaller value){}; it must fail fast",
+                        dt.as_secs_f64() * 1e3,
+                        match prev {
+                            Some((pr, pd)) => format!(
+                                ", the previous step {op}(record {pr}) took {:.3} ms",
+                                pd.as_secs_f64() * 1e3
+                            ),
+                            None => String::new(),
+                        }
+                    ),
+                    None,
+                ));
+                break;
+            }
+            prev = Some((r, dt));
         }
     }
 }
@@ -815,7 +949,9 @@ pub fn check_doc(
             st.patterns_present += 1;
             st.occurrences += expected.len() as u64;
             for p in expected.iter() {
-                if bounds.iter().any(|b| *b > *p && *b < *p + pat.len()) {
+                // a boundary strictly inside the occurrence
+                let i = bounds.partition_point(|b| *b <= *p);
+                if i < bounds.len() && bounds[i] < *p + pat.len() {
                     st.occurrences_crossing_boundary += 1;
                 }
             }
@@ -1135,6 +1271,7 @@ pub fn from_runs(first: bool, lens: &[usize]) -> Vec<bool> {
 pub struct BvStats {
     pub calls: u64,
     pub out_of_range_calls: u64,
+    pub far_ladders_stopped: u64,
 }
 
 /// The arguments that name nothing, for a vector of `n` bits whose in-range arguments end at
@@ -1149,16 +1286,6 @@ fn out_of_range_args(n: usize, limit: usize) -> Vec<usize> {
         n + 64,
         n + 65,
         2 * n + 1,
-        u32::MAX as usize,
-        u32::MAX as usize + 1,
-        usize::MAX / 64,
-        (1usize << 62) + 2,
-        (1usize << 62) + 3,
-        usize::MAX / 2,
-        (1usize << 63) + 2,
-        (1usize << 63) + 3,
-        usize::MAX - 1,
-        usize::MAX,
     ];
     v.retain(|x| *x > limit);
     v.sort();
@@ -1265,9 +1392,53 @@ pub fn check_bv<BV: BitVector>(
         };
         let mut seen: HashSet<String> = HashSet::new();
         let first_pass = &mut first_pass;
-        let mut one = |op: Op, x: usize, st: &mut BvStats, out: &mut Vec<Finding>| {
+        let mut prev_far: Option<(usize, std::time::Duration)> = None;
+        // returns true when the call was slow (the far ladder stops there)
+        let mut one = |op: Op, x: usize, st: &mut BvStats, out: &mut Vec<Finding>| -> bool {
             st.calls += 1;
-            let got = call(&bv, op, x);
+            let (got, dt) = timed(|| call(&bv, op, x));
+            let (want0, _) = oracle.expect(op, x);
+            if want0 == Ans::None && x > n.saturating_mul(2).saturating_add(1) {
+                // a replayed single call is judged with hysteresis: the explorer stopped at the
+                // first step over the limit, which may sit right at it
+                let limit = if matches!(probe, Probe::One(..)) { SLOW / 4 } else { SLOW };
+                if dt > limit {
+                    let sig = format!(
+                        "bv:{name}:{tag}{}:time-grows-with-argument:arg-far-past-range",
+                        op.name()
+                    );
+                    let plain = format!(
+                        "bv:{name}:{}:time-grows-with-argument:arg-far-past-range",
+                        op.name()
+                    );
+                    if tag.is_empty() {
+                        first_pass.insert(plain);
+                    } else if first_pass.contains(&plain) {
+                        return true;
+                    }
+                    if seen.insert(sig.clone()) {
+                        out.push(mk(
+                            sig,
+                            format!(
+                                "{}({x}) took {:.1} ms (measured twice, smaller value){}; an argument that names nothing must fail fast",
+                                op.name(),
+                                dt.as_secs_f64() * 1e3,
+                                match prev_far {
+                                    Some((px, pd)) => format!(
+                                        ", the previous step {}({px}) took {:.3} ms",
+                                        op.name(),
+                                        pd.as_secs_f64() * 1e3
+                                    ),
+                                    None => String::new(),
+                                }
+                            ),
+                            Some((op, x)),
+                        ));
+                    }
+                    return true;
+                }
+                prev_far = Some((x, dt));
+            }
             let (want, alt) = oracle.expect(op, x);
             if got == want || Some(&got) == alt.as_ref() {
                 let h = match &got {
@@ -1277,8 +1448,10 @@ pub fn check_bv<BV: BitVector>(
                     Ans::Pair(a, r) => (*r as u64 * 2 + *a as u64).wrapping_mul(0x9e3779b97f4a7c15) ^ 7,
                     Ans::Panic(_) => 0,
                 };
-                outcomes.insert(h ^ ((op as u64) << 56));
-                return;
+                if x < 256 || x % 61 == 0 {
+                    outcomes.insert(h ^ ((op as u64) << 56));
+                }
+                return false;
             }
             let class = oracle.arg_class(op, x);
             let how = match (&got, &want) {
@@ -1293,7 +1466,7 @@ pub fn check_bv<BV: BitVector>(
                 first_pass.insert(plain.clone());
             } else if first_pass.contains(&plain) {
                 // the re-parsed copy fails the same way as the first parse: one defect
-                return;
+                return false;
             }
             if seen.insert(sig.clone()) {
                 out.push(mk(
@@ -1302,6 +1475,7 @@ pub fn check_bv<BV: BitVector>(
                     Some((op, x)),
                 ));
             }
+            false
         };
         // len / is_empty
         let le = vcore::catch(|| (bv.len(), bv.is_empty()));
@@ -1322,7 +1496,9 @@ pub fn check_bv<BV: BitVector>(
             )),
         }
         match probe {
-            Probe::One(op, x) => one(*op, *x, st, out),
+            Probe::One(op, x) => {
+                one(*op, *x, st, out);
+            }
             Probe::Every => {
                 for x in 0..=n {
                     one(Op::Access, x, st, out);
@@ -1336,7 +1512,11 @@ pub fn check_bv<BV: BitVector>(
                 for k in 0..=oracle.zeros.len() {
                     one(Op::Select0, k, st, out);
                 }
+                // the argument checks do not depend on where the bytes live: first parse only
                 for op in Op::ALL {
+                    if !tag.is_empty() {
+                        break;
+                    }
                     let limit = match op {
                         Op::Access | Op::AccessRank | Op::Rank | Op::Rank0 => n,
                         Op::Select => oracle.ones.len(),
@@ -1345,6 +1525,16 @@ pub fn check_bv<BV: BitVector>(
                     for x in out_of_range_args(n, limit) {
                         st.out_of_range_calls += 1;
                         one(op, x, st, out);
+                    }
+                    for x in far_ladder() {
+                        if x <= 2 * n + 1 {
+                            continue;
+                        }
+                        st.out_of_range_calls += 1;
+                        if one(op, x, st, out) {
+                            st.far_ladders_stopped += 1;
+                            break;
+                        }
                     }
                 }
             }
